@@ -416,6 +416,7 @@ func runScaleProfiles(c *harness.Ctx) harness.Result {
 	n := 2 + r.Intn(3)
 	var ps []*profile.Profile
 	var before [][]*big.Rat
+	var inputFactors []*big.Rat
 	var counts []int
 	desc := []string{}
 	otherUnit := []string{"count", "frobs", ""}[r.Intn(3)]
@@ -443,6 +444,7 @@ func runScaleProfiles(c *harness.Ctx) harness.Result {
 			tot[1].Add(tot[1], mul(v1, u.factor))
 		}
 		ps = append(ps, p)
+		inputFactors = append(inputFactors, u.factor)
 		before = append(before, tot)
 		counts = append(counts, ns)
 		desc = append(desc, fmt.Sprintf("%s:%d samples", alias, ns))
@@ -454,6 +456,13 @@ func runScaleProfiles(c *harness.Ctx) harness.Result {
 		return res
 	}
 	unitName := ps[0].SampleType[1].Unit
+	// the common unit is the finest one among the inputs, so conversion is an exact multiplication
+	var finest *big.Rat
+	for _, d := range inputFactors {
+		if finest == nil || d.Cmp(finest) < 0 {
+			finest = d
+		}
+	}
 	var uf *big.Rat
 	for _, u := range fam.units {
 		for _, a := range u.aliases {
@@ -484,8 +493,12 @@ func runScaleProfiles(c *harness.Ctx) harness.Result {
 			res.Verdict, res.Detail = harness.Violated, fmt.Sprintf("column in unit %q changed its total: %v -> %v", otherUnit, before[i][0], t0)
 			return res
 		}
+		if uf.Cmp(finest) != 0 {
+			res.Verdict, res.Detail = harness.Violated, fmt.Sprintf("profiles %v were harmonised to %q, which is not the finest unit among them (precision of profile %d would be lost)", desc, unitName, i)
+			return res
+		}
 		d := new(big.Rat).Sub(t1, before[i][1])
-		lim := new(big.Rat).Mul(big.NewRat(int64(counts[i]), 2), uf)
+		lim := new(big.Rat) // exact: converting to the finest unit multiplies by an integer
 		if d.Abs(d).Cmp(lim) > 0 {
 			res.Verdict, res.Detail = harness.Violated, fmt.Sprintf("physical total of profile %d (%s) changed from %v to %v base units after harmonising to %q", i, desc[i], before[i][1], t1, unitName)
 			return res
